@@ -511,10 +511,13 @@ class FileIndex(Index):
                                    and segment not in segments]
 
         reusable = {}
+        opened = []
+        ok = False
         try:
             if len(segments) == 0:
                 # This index has no segments! Return an EmptyReader object,
                 # which simply returns empty or zero to every method
+                ok = True
                 return EmptyReader(schema, generation=generation)
 
             if reuse:
@@ -535,23 +538,35 @@ class FileIndex(Index):
                     r._gen = generation
                     return r
                 else:
-                    return SegmentReader(storage, schema, segment,
-                                         generation=generation)
+                    r = SegmentReader(storage, schema, segment,
+                                      generation=generation)
+                    opened.append(r)
+                    return r
 
             if len(segments) == 1:
                 # This index has one segment, so return a SegmentReader object
                 # for the segment
-                return segreader(segments[0])
+                reader = segreader(segments[0])
             else:
                 # This index has multiple segments, so create a list of
                 # SegmentReaders for the segments, then composite them with a
                 # MultiReader
 
                 readers = [segreader(segment) for segment in segments]
-                return MultiReader(readers, generation=generation)
+                reader = MultiReader(readers, generation=generation)
+            ok = True
+            return reader
         finally:
-            for r in reusable.values():
-                r.close()
+            if ok:
+                # Close the recycled reader's sub-readers that were not reused
+                for r in reusable.values():
+                    r.close()
+            else:
+                # Opening a segment failed (e.g. its files were just merged
+                # away): leave the reader being recycled intact so the caller
+                # can retry with it, and close what this attempt opened
+                for r in opened:
+                    r.close()
 
     def reader(self, reuse=None):
         retries = 10
